@@ -4,6 +4,15 @@ func H_C19_custom_key_flags() {
 	v := vU8("v")
 	var kf CustomKeyInformationFlags
 	kf.FromBytes(vU8("prev")) // a reused receiver: the decomposition describes the last word only
+	// an earlier result is the caller's to edit; later decompositions do not see the edits
+	var kf0 CustomKeyInformationFlags
+	kf0.FromBytes(vU8("prev0"))
+	for i := range kf0.Name {
+		kf0.Name[i] = "edited"
+	}
+	if cap(kf0.Name) >= 2 {
+		_ = append(kf0.Name[:0], "edited", "edited")
+	}
 	kf.FromBytes(v)
 	vCheck(kf.Value == v, "keyflags/value-kept")
 	var want []string
